@@ -124,6 +124,32 @@ def rule_freshname(ctx, prop: str) -> RuleResult:
                         f"candidate (a, a, a_1) receives the same text — two distinct variables print identically",
                     )
                 )
+    if prop == "C17":
+        # the printed text also mentions names that are NOT variables — the procedures it calls, memories,
+        # configs, externs — and they are resolved in the scope the text is parsed in.  A variable that is issued
+        # one of those names captures it (`for callee in seq(0, 2): callee(x[...])` does not parse back).  The
+        # registry of taken names has to be seeded with them before the first variable is named.
+        PP_ = "src/exo/core/LoopIR_pprint.py"
+        m_ = ix.module(PP_)
+        seeded = False
+        for fn in (g for g in ix.all_funcs() if g.file == PP_):
+            for n in fn.body_nodes():
+                # a store `<env>.names[<callee / memory / config name>] = ...` or a call reserving such a name
+                if isinstance(n, ast.Assign) and isinstance(n.targets[0], ast.Subscript) and ast.unparse(n.targets[0].value).endswith("names"):
+                    k_ = ast.unparse(n.targets[0].slice)
+                    if ".f.name" in k_ or "mem.name" in k_ or "config.name" in k_:
+                        seeded = True
+                if isinstance(n, ast.Call) and (last_name(n) or "") in ("reserve", "reserve_name", "reserve_globals"):
+                    seeded = True
+        res.instances += 1
+        res.nontrivial += 1
+        res.ob(seeded)
+        res.sample(f"the printer's name registry is seeded with the callee / memory / config names the text mentions: {seeded}")
+        if not seeded:
+            pe = m_.cls("PrintEnv")
+            res.add(Finding("FRESHNAME", PP_, pe.node.lineno if pe else 1, "PrintEnv", "globals-not-reserved",
+                            "variables are disambiguated against other variables only: the names of called procedures, memories, configs and externs that appear in the same text are not reserved, "
+                            "so a variable may be issued one of them — divide_loop(foo, 'i', 4, ['callee', 'ii']) prints `for callee in seq(0, 2): ... callee(x[4 * callee + ii, 0:4])`, which does not parse back"))
     res.floor = len(FRESH_SITES.get(prop, []))
     return res
 
